@@ -886,6 +886,32 @@ pub fn search_c14(rng: &mut Rng, thorough: bool) -> SearchResult {
         if let Some(w) = call(&mut r, "cell_to_lonlat", malformed, &mut || a5::cell_to_lonlat(id).and_then(|p| if p.longitude().is_finite() && p.latitude().is_finite() { Ok(vec![]) } else { Err("non-finite".into()) })) {
             r.viol("total:cell_to_lonlat", format!("cell_to_lonlat({:x}): {}", id, w));
         }
+        // the cell-level geometry functions on whatever the word decodes to (world cell and aliases included): these
+        // can exhaust memory rather than panic, so the call is announced on stderr first (the driver limits the
+        // address space of this process and reports the last announced call if it dies)
+        let id2 = match rng.below(4) { 0 => 0, 1 => 1 + rng.below(15), _ => id };
+        if let Ok(c) = a5::core::serialization::deserialize(id2) {
+            eprintln!("CALL get_pentagon(&deserialize({:#x})) [cell {:?}]", id2, c);
+            let c1 = c.clone();
+            if let Some(w) = call(&mut r, "get_pentagon", true, &mut || a5::core::cell::get_pentagon(&c1).map(|_| vec![])) {
+                if w != "Err" {
+                    r.viol("total:get_pentagon", format!("get_pentagon(&deserialize({:x})): {}", id2, w));
+                }
+            }
+            // a point next to the centre of the cell's face, so that the far-point shortcut does not apply
+            let ax = a5::core::origin::get_origins()[c.origin_id as usize].axis;
+            let ll = a5::core::coordinate_transforms::to_lon_lat(a5::coordinate_systems::Spherical::new(
+                a5::coordinate_systems::Radians::new_unchecked(ax.theta().get() + 0.01 * rng.unit()),
+                a5::coordinate_systems::Radians::new_unchecked((ax.phi().get() + 0.01 * rng.unit()).abs()),
+            ));
+            eprintln!("CALL a5cell_contains_point(&deserialize({:#x}), ({}, {}))", id2, ll.longitude(), ll.latitude());
+            let c2 = c.clone();
+            if let Some(w) = call(&mut r, "a5cell_contains_point", true, &mut || a5::core::cell::a5cell_contains_point(&c2, ll).and_then(|v| if v.is_finite() { Ok(vec![]) } else { Err("non-finite".into()) })) {
+                if w != "Err" {
+                    r.viol("total:a5cell_contains_point", format!("a5cell_contains_point(&deserialize({:x}), ({}, {})): {}", id2, ll.longitude(), ll.latitude(), w));
+                }
+            }
+        }
         let segs = match rng.below(5) { 0 => None, 1 => Some(1), 2 => Some(0), 3 => Some(-3), _ => Some(rng.range_i(1, 6) as i32) };
         let closed = rng.chance(1, 2);
         if let Some(w) = call(&mut r, "cell_to_boundary", malformed || segs.map_or(false, |x| x < 1), &mut || {
